@@ -412,32 +412,30 @@ func (m *MemMapFs) Chmod(name string, mode os.FileMode) error {
 	mode &= chmodBits
 	name = normalizePath(name)
 
-	m.mu.RLock()
+	// lookup and update in one critical section: the entry cannot be renamed away or replaced
+	// between the two
+	m.mu.Lock()
+	defer m.mu.Unlock()
 	f, ok := m.getData()[name]
-	m.mu.RUnlock()
 	if !ok {
 		return &os.PathError{Op: "chmod", Path: name, Err: ErrFileNotFound}
 	}
 	prevOtherBits := mem.GetFileInfo(f).Mode() & ^chmodBits
-
-	mode = prevOtherBits | mode
-	return m.setFileMode(name, mode)
+	mem.SetMode(f, prevOtherBits|mode)
+	return nil
 }
 
 func (m *MemMapFs) setFileMode(name string, mode os.FileMode) error {
 	name = normalizePath(name)
 
-	m.mu.RLock()
+	// lookup and update in one critical section
+	m.mu.Lock()
+	defer m.mu.Unlock()
 	f, ok := m.getData()[name]
-	m.mu.RUnlock()
 	if !ok {
 		return &os.PathError{Op: "chmod", Path: name, Err: ErrFileNotFound}
 	}
-
-	m.mu.Lock()
 	mem.SetMode(f, mode)
-	m.mu.Unlock()
-
 	return nil
 }
 
@@ -460,17 +458,13 @@ func (m *MemMapFs) Chown(name string, uid, gid int) error {
 func (m *MemMapFs) Chtimes(name string, atime time.Time, mtime time.Time) error {
 	name = normalizePath(name)
 
-	m.mu.RLock()
+	m.mu.Lock()
+	defer m.mu.Unlock()
 	f, ok := m.getData()[name]
-	m.mu.RUnlock()
 	if !ok {
 		return &os.PathError{Op: "chtimes", Path: name, Err: ErrFileNotFound}
 	}
-
-	m.mu.Lock()
 	mem.SetModTime(f, mtime)
-	m.mu.Unlock()
-
 	return nil
 }
 
